@@ -80,6 +80,11 @@ def rule_goodbye(ctx):
                 for c in node_calls(n):
                     if norm.text(c.func) == "self._transport.send" and c.args and norm.text(c.args[0]) == v:
                         sites.append((fn, g, mf, n, c))
+        # ... or built in place: self._transport.send(message.Goodbye(...))
+        for n in g.stmt_nodes():
+            for c in node_calls(n):
+                if norm.text(c.func) == "self._transport.send" and c.args and isinstance(c.args[0], ast.Call) and (call_name(c.args[0]) or "").endswith("message.Goodbye"):
+                    sites.append((fn, g, mf, n, c))
     ctx.ob("GOODBYE is sent from exactly two places (leave() and the reply to the peer's GOODBYE)", len(sites) == 2, f"{len(sites)} sites", om.fn.loc())
     for fn, g, mf, n, c in sites:
         ctx.ob(f"{fn.name}: GOODBYE only when none was sent yet", ("truth", "self._goodbye_sent", None, False) in mf.at(n), "GOODBYE not guarded by `not self._goodbye_sent`", fn.loc(c))
@@ -158,7 +163,10 @@ def rule_pending_tables(ctx):
         ok = len(calls) == 1 and g2.always_followed_by(g2.entry, lambda x: x is calls[0][0])
         ctx.ob(f"{name}: always fails the outstanding requests", ok, "not on every path", f2.loc())
     od = ctx.program.func(f"{APPSESSION}.onDisconnect")
-    ctx.ob("onDisconnect fails them with TransportLost", any(isinstance(s, ast.Assign) and norm.text(s.value) == "exception.TransportLost()" for s in walk_no_defs(od.node)), "changed", od.loc())
+    from .common import canon_text
+    eb = [c for c in calls_in(od.node) if self_call(c, "_errback_outstanding_requests")]
+    ctx.ob("onDisconnect fails them with TransportLost", len(eb) == 1 and len(eb[0].args) == 1 and canon_text(od, eb[0].args[0]) == "exception.TransportLost()",
+           f"fails them with {[canon_text(od, c.args[0]) for c in eb if c.args]}", od.loc())
 
 
 def rule_onclose(ctx):
@@ -173,6 +181,37 @@ def rule_onclose(ctx):
     ol = [(n, c) for n in g.stmt_nodes() for c in node_calls(n) if call_name(c) == "txaio.as_future" and c.args and norm.text(c.args[0]) == "self.onLeave"]
     ok = len(ol) == 1 and ("truth", "self._session_id", None, True) in mf.at(ol[0][0])
     ctx.ob("onLeave is fired on transport loss only for a joined session", ok, "leave guard changed", fn.loc())
+    # exactly when: cell-wise over (joined or not) x (every other flag the function reads)
+    from ..core.tiny import Tiny, Sym, TinyRaise
+    import itertools
+    flags = sorted({norm.text(x) for x in ast.walk(fn.node) if isinstance(x, ast.Attribute) and is_self_attr(x) and isinstance(x.ctx, ast.Load)
+                    and x.attr.startswith("_") and x.attr not in ("_session_id", "_transport", "_swallow_error")})
+    probs = []
+    try:
+        for sid, wc in itertools.product((None, 7), (True, False)):
+            for fl in itertools.product((True, False), repeat=len(flags)):
+                hooks = []
+
+                def default(f_, a_, k_=None):
+                    if f_ == "txaio.as_future" and a_:
+                        hooks.append(a_[0].name if isinstance(a_[0], Sym) else repr(a_[0]))
+                        return Sym("pending")
+                    return Sym(f"<{f_}>")
+                me = Sym("session", onLeave=Sym("onLeave"), onDisconnect=Sym("onDisconnect"), fire=Sym("fire"))
+                env = {"self": me, "self._session_id": sid, "self._transport": Sym("transport"), fn.params()[1]: wc}
+                env.update(dict(zip(flags, fl)))
+                t = Tiny(env, default_call=default, opaque_globals=True)
+                r = t.run([x for x in fn.node.body if not (isinstance(x, ast.Expr) and isinstance(x.value, ast.Constant))])
+                want = (["onLeave"] if sid is not None else []) + ["onDisconnect"]
+                cell = f"session {'joined' if sid else 'not joined'}, " + ", ".join(f"{k}={v}" for k, v in zip(flags, fl)) + f", wasClean={wc}"
+                if r[0] not in ("fall", "return") or hooks != want:
+                    probs.append(f"{cell}: notifies {hooks or 'nothing'} ({r[0]}), expected {want}")
+                elif t.env.get("self._session_id") is not None or t.env.get("self._transport") is not None:
+                    probs.append(f"{cell}: session id / transport reference survive the transport loss")
+        ctx.ob(f"transport loss: onLeave exactly when a session was joined, then onDisconnect always; id and transport reference dropped [{2 ** (2 + len(flags))} cells]",
+               not probs, "; ".join(probs[:2]), fn.loc())
+    except AnalysisError as e:
+        raise AnalysisError(f"[C06.4-transport-loss-path] onClose outside the modelled subset: {e}")
     rs = [n for n in g.stmt_nodes() if n.kind == "stmt" and isinstance(n.ast, ast.Assign) and norm.text(n.ast.targets[0]) == "self._session_id" and norm.text(n.ast.value) == "None"]
     ok = len(rs) == 1 and bool(ol) and g.always_followed_by(ol[0][0], lambda x: x is rs[0])
     ctx.ob("the session id is dropped on that path (leave cannot fire again)", ok, "session id not reset", fn.loc())
@@ -209,6 +248,16 @@ def rule_api_guards(ctx):
         guards = [n for n in g.stmt_nodes() if n.kind == "test" and norm.atoms(n.ast, True, res) == [("truth", "self._transport", None, False)]]
         ok = len(guards) == 1 and all(m.kind == "stmt" and isinstance(m.ast, ast.Raise) and "TransportLost" in norm.text(m.ast.exc) for m, lab in guards[0].succ if lab and lab[0] == "T")
         ctx.ob(f"{name}: raises TransportLost when the transport is gone", ok, "guard missing", fn.loc())
+        if ok:
+            # "fail immediately": every path runs the guard, and nothing happens before it except argument checks
+            before = g.reachable(g.entry, avoid=lambda x: x is guards[0])
+            early = [n for n in g.stmt_nodes() if n.id in before and n is not guards[0] and n.kind == "stmt" and
+                     (isinstance(n.ast, (ast.Return, ast.AugAssign, ast.Delete)) or
+                      (isinstance(n.ast, ast.Assign) and not all(isinstance(t_, ast.Name) for t_ in n.ast.targets)) or
+                      (isinstance(n.ast, ast.Expr) and isinstance(n.ast.value, ast.Call) and not (call_name(n.ast.value) or "").startswith(("message.check_or_raise", "self.log."))))]
+            ctx.ob(f"{name}: the transport test comes first on every path (nothing is changed, sent or returned before it)",
+                   g.always_followed_by(g.entry, lambda x: x is guards[0], exc=False) and not early,
+                   f"the guard can be by-passed or is preceded by `{stmt_key(early[0].ast)[:60] if early else 'a path around it'}`", fn.loc(guards[0].ast))
         ids = [n for n in g.stmt_nodes() for c in node_calls(n) if norm.text(c.func) == "self._request_id_gen.next"]
         inner = [c for c in fn.nested_list() if c.name in ("_subscribe", "_register")]
         if guards and ids:
